@@ -5,10 +5,12 @@ package frontend
 
 import (
 	"github.com/tetratelabs/wazero/internal/engine/wazevo/ssa"
+	"github.com/tetratelabs/wazero/internal/engine/wazevo/wazevoapi"
 	"github.com/tetratelabs/wazero/internal/wasm"
 )
 
 var (
+	_ = wazevoapi.ExitCodeOK
 	_ ssa.BasicBlock
 	_ wasm.ValueType
 )
@@ -87,7 +89,8 @@ func isValueType(vt wasm.ValueType) bool {
 
 // ---- C02: the bounds check the compiler emits for a load/store (memOpSetup). Ghost registers kept by the
 // assumed ssa.Builder contract (package ssa) record the instructions as they are inserted.
-func oobChecks() int { return verif_ghost_int("oobChecks") }
+func oobChecks() int  { return verif_ghost_int("oobChecks") }
+func gg(n string) int { return verif_ghost_int(n) }
 func knownBoundOf(c *Compiler, v ssa.Value) uint64 {
 	id := v.ID()
 	if int(id) >= len(c.knownSafeBounds) {
@@ -110,5 +113,17 @@ func knownBoundOf(c *Compiler, v ssa.Value) uint64 {
 //@ func (c *Compiler) memOpSetup(baseAddr ssa.Value, constOffset, operationSizeInBytes uint64) (address ssa.Value)
 //@   requires c.ssaBuilder != nil && constOffset < 1<<33 && operationSizeInBytes <= 16
 //@   ensures[checked-unless-known-safe] oobChecks() == old(oobChecks()) + 1 || (oobChecks() == old(oobChecks()) && old(knownBoundOf(c, baseAddr)) >= constOffset+operationSizeInBytes)
-//@   ensures[the-check-covers-the-access] oobChecks() != old(oobChecks()) ==> verif_ghost_int("oobArg") == int(baseAddr) && verif_ghost_int("oobCeil") == int(constOffset+operationSizeInBytes) && verif_ghost_int("oobLen") == verif_ghost_int("memLenVal")
+//@   ensures[the-check-covers-the-access] oobChecks() != old(oobChecks()) ==> gg("oobCode") == int(wazevoapi.ExitCodeMemoryOutOfBounds) && gg("oobViaExt") == 1 && gg("oobViaConst") == 1 && gg("oobArg") == int(baseAddr) && gg("oobCeil") == int(constOffset+operationSizeInBytes) && gg("oobLen") == gg("memLenVal")
+//@   nosafety keep-pre
+
+// Bulk operations (memory.init/copy/fill, table.init/copy/fill): one check  length <u offset+size  per
+// region, with the exit code of the region's kind.
+//@ func (c *Compiler) boundsCheckInMemory(memLen, offset, size ssa.Value)
+//@   requires c.ssaBuilder != nil
+//@   ensures[one-check-of-offset-plus-size-against-the-length] oobChecks() == old(oobChecks()) + 1 && gg("oobCode") == int(wazevoapi.ExitCodeMemoryOutOfBounds) && gg("oobLen") == int(memLen) && gg("oobAddX") == int(offset) && gg("oobAddY") == int(size)
+//@   nosafety keep-pre
+
+//@ func (c *Compiler) boundsCheckInTable(tableIndex uint32, offset, size ssa.Value) (tableInstancePtr ssa.Value)
+//@   requires c.ssaBuilder != nil
+//@   ensures[one-check-of-offset-plus-size] oobChecks() == old(oobChecks()) + 1 && gg("oobCode") == int(wazevoapi.ExitCodeTableOutOfBounds) && gg("oobAddX") == int(offset) && gg("oobAddY") == int(size)
 //@   nosafety keep-pre
